@@ -149,6 +149,18 @@ class ClassEval:
                 return getattr(local[fn.value.id], fn.attr)(*[ev(a) for a in node.args])
             except (IndexError, KeyError, ValueError) as e:
                 raise NotConstant("%s: %s" % (type(e).__name__, e))
+        # ... or of a concrete container reached through an expression (`self.tree.activeFormattingElements.remove(x)`)
+        if isinstance(fn, ast.Attribute) and not isinstance(fn.value, ast.Name) and not node.keywords and \
+                fn.attr in ("pop", "append", "extend", "insert", "remove", "clear", "add", "discard", "update", "setdefault"):
+            try:
+                cont_ = self.ce.eval(fn.value, self.mod, local)
+            except NotConstant:
+                cont_ = None
+            if isinstance(cont_, (list, dict, set)):
+                try:
+                    return getattr(cont_, fn.attr)(*[ev(a) for a in node.args])
+                except (IndexError, KeyError, ValueError) as e:
+                    raise NotConstant("%s: %s" % (type(e).__name__, e))
         # a method of a Record: the model the rule supplied (not repository code)
         if isinstance(fn, ast.Attribute) and not fn.attr.startswith("_"):
             try:
